@@ -85,7 +85,11 @@ underlying type. Nodes inside interpolated strings and domain-text literals come
 of the file. The comparison with go/types is made per identifier by byte offset. After seeded changes were missed the
 Go-compatible programs also contain package-level declarations placed after their first use (this exposed two genuine
 defects, both fixed: constants loaded on demand lost their Defs entry; a function loaded on demand saw the referring
-function's locals) and partial redeclarations by `:=`.""",
+function's locals) and partial redeclarations by `:=`. After a wave-10 change was missed (struct embedding `*T`: the
+field object moved to the `*`), the programs also declare structs that embed a type by value, by pointer and as a
+qualified pointer (`*strconv.NumError`), and a misplaced field object inside a struct type is its own site
+(`defs-position-invariant:field:in-struct-type`), separate from the known class-file var-block finding that used to
+absorb it.""",
 "C13": "Q ≈10⁵ inputs / T ≈10⁶ in 11 mode combinations and 5 entry points; ten parser defects fixed (see appendix).",
 "C14": """Four by-design/unsupported Go features are known findings by feature signature (type parameters, union/~
 constraints, `$` in string literals, a blank between callee and `(`). XGo's command-style syntax makes a few blanks
